@@ -84,6 +84,12 @@ func addNodeBreakerOfResource(resource string, address string) {
 		[]*circuitbreaker.Rule{breakerRule}, []circuitbreaker.CircuitBreaker{})
 	if len(newBreakers) > 0 {
 		updateMux.Lock()
+		if breakerRules[resource] != breakerRule {
+			// The rule was replaced (or removed) while the breaker was being built: a breaker of the old
+			// rule must not join the breakers of the new one. The next completion adds the node.
+			updateMux.Unlock()
+			return
+		}
 		if nodeBreakers[resource] == nil {
 			nodeBreakers[resource] = make(map[string]circuitbreaker.CircuitBreaker)
 		}
